@@ -1093,5 +1093,141 @@ Proof.
     apply (step_termW i j c a b fa fb psq1 psq2 s s' L G1 G2); try assumption; rewrite ?Ka, ?Kb; try reflexivity; exact E.
 Qed.
 
+Lemma step_unwrapW i j c y fa fb psq1 psq2 s s' :
+  S fa + fb <= n -> unit_kid g2 j = Some y -> pin_any R i y = true ->
+  (negb c || efree g1 EDEPTH i)%bool = true -> eqn s s' -> skipws s = true ->
+  orelW i j c s s' (P1 (S fa) i psq1 s) (P2 (S fb) j psq2 s').
+Proof.
+  intros L U H Hc Es Ks. unfold unit_kid in U. destruct (seq_kids g2 j) as [[|y' [|? ?]]|] eqn:SK; try discriminate.
+  inversion U; subst y'. destruct (seq_kids_node g2 j [y] SK) as (nd & G & K & Pl & Su & Ki).
+  pose proof (seq_node_cases g2 input orc fb j nd psq2 s' G K Pl Su) as C. rewrite Ki in C. cbn [seq_loop] in C.
+  pose proof (kid_anyW (S fa) fb i y L H psq1 true s s' Es Ks) as O.
+  destruct O as [O|[O|O]]; [left; exact O | rewrite O in C; right; left; exact C |].
+  destruct (P1 (S fa) i psq1 s) as [r1 s1|s1|w1], (P2 fb y true s') as [r2 s2|s2|w2]; try contradiction.
+  - destruct O as (E & CT & V & N1 & N2 & AT). destruct V as (Gd1 & Gd2 & T & _). right; right.
+    destruct (truthy r2) eqn:T2; cbn [app] in C; rewrite C.
+    + assert (TT : tt (post j nd (RList [r2]))).
+      { apply post_list_tt; [exact Su | apply accok1; split; [exact T2 | apply Gd2; exact T2] | discriminate]. }
+      split; [exact E|]. split; [exact CT|]. split.
+      * split; [exact Gd1|]. split; [apply tt_good; exact TT|]. split; [destruct TT; congruence|].
+        intros _. rewrite (tt_not_none r1 T), (tt_not_none _ (proj1 TT)). reflexivity.
+      * split; [exact N1 | split; [intros; apply fnn_of_tt; exact TT | exact AT]].
+    + split; [exact E|]. split; [exact CT|]. split.
+      * split; [exact Gd1|]. split; [apply good_falsy; reflexivity|]. split; [exact T|].
+        intro Ec. subst c. cbn [negb orb] in Hc. rewrite (N1 EDEPTH Hc T). reflexivity.
+      * split; [exact N1 | split; [intros; apply fnn_none | exact AT]].
+  - rewrite C. destruct O as (E & CT & Q1 & Q2). right; right.
+    split; [apply eqxn_set_pos_r; apply eqxn_set_pos_r; exact E|]. split; [exact CT|].
+    split; [exact Q1 | intros _; apply pos_set_pos].
+  - rewrite C. right; right. exact I.
+Qed.
+
+Lemma step_unwrap_lW i j c x fa fb psq1 psq2 s s' :
+  fa + S fb <= n -> unit_kid g1 i = Some x -> pin_any R x j = true ->
+  (negb c || efree g2 EDEPTH j)%bool = true -> eqn s s' -> skipws s = true ->
+  orelW i j c s s' (P1 (S fa) i psq1 s) (P2 (S fb) j psq2 s').
+Proof.
+  intros L U H Hc Es Ks. unfold unit_kid in U. destruct (seq_kids g1 i) as [[|x' [|? ?]]|] eqn:SK; try discriminate.
+  inversion U; subst x'. destruct (seq_kids_node g1 i [x] SK) as (nd & G & K & Pl & Su & Ki).
+  pose proof (seq_node_cases g1 input orc fa i nd psq1 s G K Pl Su) as C. rewrite Ki in C. cbn [seq_loop] in C.
+  pose proof (kid_anyW fa (S fb) x j L H true psq2 s s' Es Ks) as O.
+  destruct O as [O|[O|O]]; [rewrite O in C; left; exact C | right; left; exact O |].
+  destruct (P1 fa x true s) as [r1 s1|s1|w1], (P2 (S fb) j psq2 s') as [r2 s2|s2|w2]; try contradiction.
+  - destruct O as (E & CT & V & N1 & N2 & AT). destruct V as (Gd1 & Gd2 & T & _). right; right.
+    destruct (truthy r1) eqn:T1; cbn [app] in C; rewrite C.
+    + assert (TT : tt (post i nd (RList [r1]))).
+      { apply post_list_tt; [exact Su | apply accok1; split; [exact T1 | apply Gd1; exact T1] | discriminate]. }
+      split; [exact E|]. split; [exact CT|]. split.
+      * split; [apply tt_good; exact TT|]. split; [exact Gd2|]. split; [destruct TT; congruence|].
+        intros _. rewrite (tt_not_none _ (proj1 TT)), (tt_not_none r2 (eq_sym T)). reflexivity.
+      * split; [intros; apply fnn_of_tt; exact TT|]. split; [exact N2 | intros _ _; apply TT].
+    + split; [exact E|]. split; [exact CT|]. split.
+      * split; [apply good_falsy; reflexivity|]. split; [exact Gd2|]. split; [exact T|].
+        intro Ec. subst c. cbn [negb orb] in Hc. rewrite (N2 EDEPTH Hc (eq_sym T)). reflexivity.
+      * split; [intros; apply fnn_none|]. split; [exact N2|].
+        intros d q. destruct (atrue_seq0 g1 ne d i nd G K q) as [d' q']. rewrite Ki in q'. cbn [existsb] in q'.
+        rewrite orb_false_r in q'. specialize (AT d' q'). congruence.
+  - rewrite C. destruct O as (E & CT & Q1 & Q2). right; right.
+    split; [apply eqxn_set_pos_l; apply eqxn_set_pos_l; exact E|].
+    split; [eapply ctx3_trans; [apply ctx3_set_pos|]; eapply ctx3_trans; [apply ctx3_set_pos | exact CT]|].
+    split; [intros _; apply pos_set_pos | exact Q2].
+  - rewrite C. right; right. exact I.
+Qed.
+
+Lemma stepW fa fb : fa + fb <= S n -> simW fa fb.
+Proof.
+  intros L i j c HIn psq1 psq2 s s' Es Ks. destruct (HR _ HIn) as [Hl|Hs]; [|apply Hs; assumption].
+  destruct fa as [|fa]; [left; reflexivity|]. destruct fb as [|fb]; [right; left; reflexivity|].
+  unfold local_ok in Hl. destruct (get_node g1 i) as [a|] eqn:G1; [|discriminate].
+  destruct (get_node g2 j) as [b|] eqn:G2; [|discriminate].
+  apply orb_true_iff in Hl as [Hl|Hl]; [apply orb_true_iff in Hl as [Hl|Hl]|].
+  - apply (step_structW i j c a b); try assumption. lia.
+  - destruct (unit_kid g2 j) as [y|] eqn:U; [|discriminate]. apply andb_true_iff in Hl as [H1 H2].
+    apply (step_unwrapW i j c y); try assumption. lia.
+  - destruct (unit_kid g1 i) as [x|] eqn:U; [|discriminate]. apply andb_true_iff in Hl as [H1 H2].
+    apply (step_unwrap_lW i j c x); try assumption. lia.
+Qed.
+
 End StepW.
+
+Lemma sim_allW n : forall fa fb, fa + fb <= n -> simW fa fb.
+Proof.
+  induction n as [|n IHn]; intros fa fb L.
+  - assert (fa = 0) by lia. subst. intros i j c _ psq1 psq2 s s' _ _. left. reflexivity.
+  - apply (stepW n IHn). exact L.
+Qed.
+
+(* outcomes of whole runs: acceptance only *)
+Definition outcome_acc (o1 o2 : outcome) : Prop :=
+  o1 = Aborted 0 \/ o2 = Aborted 0 \/
+  match o1, o2 with
+  | Parsed _, Parsed _ => True
+  | SyntaxErr _, SyntaxErr _ => True
+  | Aborted _, Aborted _ => True
+  | _, _ => False
+  end.
+
+Lemma run_relW cfg f1 f2 : c_skipws cfg = true ->
+  outcome_acc (run g1 cfg orc false f1 input) (run g2 cfg orc false f2 input).
+Proof.
+  intro SK. unfold run. pose proof HF as F. unfold frame_ok in F. apply andb_true_iff in F as [F _].
+  apply (pin_any_In R) in F as [c F].
+  pose proof (sim_allW (f1 + f2) f1 f2 (le_n _) _ _ _ F false false (init_st cfg) (init_st cfg) (eqn_refl _) SK) as O.
+  destruct O as [O|[O|O]]; [rewrite O; left; reflexivity | rewrite O; right; left; reflexivity |].
+  destruct (P1 f1 (g_top g1) false (init_st cfg)) as [r1 s1|s1|w1],
+           (P2 f2 (g_top g2) false (init_st cfg)) as [r2 s2|s2|w2]; try contradiction;
+    right; right; exact I.
+Qed.
+
 End SoundW.
+
+(* ---------------------------------------------------------------- the checker, weak mode *)
+Definition orc_alts (alts : list (nat * nat * nat)) (orc : nat -> nat -> option nat) : Prop :=
+  forall o1 o2 o3 p, In (o1, o2, o3) alts ->
+  orc o3 p = match orc o1 p with Some l => Some l | None => orc o2 p end.
+
+Theorem rel_sound_acc g1 g2 ne alts R input orc :
+  orc_nonempty ne orc -> orc_alts alts orc ->
+  frame_ok g1 g2 R = true ->
+  (forall p, In p R -> local_ok g1 g2 ne true alts R p = true \/ sem_okW g1 g2 ne input orc p) ->
+  forall cfg f1 f2, c_skipws cfg = true ->
+  outcome_acc (run g1 cfg orc false f1 input) (run g2 cfg orc false f2 input).
+Proof. intros Hne Halt HF HR cfg f1 f2 SK. apply (run_relW g1 g2 ne alts R input orc Hne Halt HR HF cfg f1 f2 SK). Qed.
+
+Theorem diffs_sound_acc ne alts seeds g1 g2 :
+  peg_equiv_diffs_acc ne alts seeds g1 g2 = [] ->
+  forall input orc, orc_nonempty ne orc -> orc_alts alts orc ->
+  forall cfg f1 f2, c_skipws cfg = true ->
+  run g1 cfg orc false f1 input <> Aborted 0 -> run g2 cfg orc false f2 input <> Aborted 0 ->
+  accepts (run g1 cfg orc false f1 input) = accepts (run g2 cfg orc false f2 input).
+Proof.
+  unfold peg_equiv_diffs_acc, peg_equiv_diffs_gen. intros H input orc Hne Halt cfg f1 f2 SK A1 A2.
+  apply app_eq_nil in H as [H1 H2].
+  assert (O : outcome_acc (run g1 cfg orc false f1 input) (run g2 cfg orc false f2 input)).
+  { apply (rel_sound_acc g1 g2 ne alts (reach_all g1 g2 seeds) input orc Hne Halt); [| |exact SK].
+    - destruct (frame_ok g1 g2 (reach_all g1 g2 seeds)); [reflexivity | discriminate].
+    - intros p HIn. left. pose proof (filter_nil _ _ H2 p HIn) as E. cbv beta in E.
+      destruct (local_ok g1 g2 ne true alts (reach_all g1 g2 seeds) p); [reflexivity | simpl in E; discriminate]. }
+  destruct O as [O|[O|O]]; [contradiction | contradiction |].
+  destruct (run g1 cfg orc false f1 input), (run g2 cfg orc false f2 input); try contradiction; reflexivity.
+Qed.
